@@ -220,7 +220,7 @@ func runOne(ld *Loaded, fn *ssa.Function, opts RunOpts, pool *Pool) (res Harness
 		o := opts
 		o.Fallback = nil
 		first := runOne(ld, fn, o, pool)
-		limit := first.Status == "unsupported" && strings.Contains(first.Detail, "more than") // an engine limit (map slots, events, goroutines)
+		limit := first.Status == "unsupported" && (strings.Contains(first.Detail, "more than") || strings.Contains(first.Detail, "budget exceeded")) // an engine limit (map slots, events, goroutines, execution budget)
 		if !limit && (first.Status != "inconclusive" || !(strings.Contains(first.Detail, "timeout") || strings.Contains(first.Detail, "unknown") || strings.Contains(first.Detail, "budget"))) {
 			return first
 		}
